@@ -26,7 +26,7 @@ NAME = "delta"
 DRIVER_SRCS = ["delta_driver.cpp"]
 MODEL_FAMILY = "delta"
 MODE = "diff"
-BUDGET = {"quick": 500, "thorough": 40000}
+BUDGET = {"quick": 500, "thorough": 150000}
 
 TS, SIGNAL, TSS, TSD, TSL, TSB, TSW = 1, 2, 3, 4, 5, 6, 7
 
